@@ -182,3 +182,55 @@ package raft
 //@        (exists i int :: 0 <= i && i < #i && configuration.Servers[i].ID == id && configuration.Servers[i].Suffrage == Voter)
 //@   loop 1 invariant vals: forall id ServerID :: dom(c.matchIndexes, id) ==> c.matchIndexes[id] == old(c.matchIndexes[id])
 //@   loop 1 invariant fresh: isfresh(c.matchIndexes) && c.commitIndex == old(c.commitIndex)
+
+// ---------------------------------------------------------------------------
+// C07: configurations
+
+//@ spec func validConfiguration(cfg Configuration) bool =
+//@   (forall i int :: 0 <= i && i < len(cfg.Servers) ==> cfg.Servers[i].ID != "" && cfg.Servers[i].Address != "") &&
+//@   (forall i int, j int :: 0 <= i && i < j && j < len(cfg.Servers) ==>
+//@       cfg.Servers[i].ID != cfg.Servers[j].ID && cfg.Servers[i].Address != cfg.Servers[j].Address) &&
+//@   (exists i int :: 0 <= i && i < len(cfg.Servers) && cfg.Servers[i].Suffrage == Voter)
+
+//@ func checkConfiguration
+//@   modifies nothing
+//@   ensures  iff: (result == nil) == validConfiguration(configuration)
+//@   loop 1 invariant nonempty: forall k int :: 0 <= k && k < #i ==> configuration.Servers[k].ID != "" && configuration.Servers[k].Address != ""
+//@   loop 1 invariant unique: forall a int, b int :: 0 <= a && a < b && b < #i ==>
+//@       configuration.Servers[a].ID != configuration.Servers[b].ID && configuration.Servers[a].Address != configuration.Servers[b].Address
+//@   loop 1 invariant idset: forall id ServerID :: idSet[id] == (exists k int :: 0 <= k && k < #i && configuration.Servers[k].ID == id)
+//@   loop 1 invariant addrset: forall ad ServerAddress :: addressSet[ad] == (exists k int :: 0 <= k && k < #i && configuration.Servers[k].Address == ad)
+//@   loop 1 invariant voters: voters >= 0 && voters <= #i && ((voters > 0) == (exists k int :: 0 <= k && k < #i && configuration.Servers[k].Suffrage == Voter))
+//@   loop 1 invariant fresh: isfresh(idSet) && isfresh(addressSet)
+
+//@ func hasVote
+//@   modifies nothing
+//@   ensures  first_match: result == (exists i int :: 0 <= i && i < len(configuration.Servers) && configuration.Servers[i].ID == id &&
+//@                configuration.Servers[i].Suffrage == Voter &&
+//@                (forall k int :: 0 <= k && k < i ==> configuration.Servers[k].ID != id))
+//@   loop 1 invariant none_before: forall k int :: 0 <= k && k < #i ==> configuration.Servers[k].ID != id
+
+//@ func inConfiguration
+//@   modifies nothing
+//@   ensures  member: result == (exists i int :: 0 <= i && i < len(configuration.Servers) && configuration.Servers[i].ID == id)
+//@   loop 1 invariant none_before: forall k int :: 0 <= k && k < #i ==> configuration.Servers[k].ID != id
+
+//@ func nextConfiguration
+//@   modifies nothing
+//@   ensures  stale_prev_rejected: change.prevIndex > 0 && change.prevIndex != currentIndex ==> result1 != nil && len(result0.Servers) == 0
+//@   ensures  error_means_empty: result1 != nil ==> len(result0.Servers) == 0
+//@   ensures  valid: result1 == nil ==> validConfiguration(result0)
+//@   ensures  one_voter_delta_add [when change.command == AddVoter]: result1 == nil ==> forall id ServerID :: id != change.serverID ==> isVoter(result0, id) == isVoter(current, id)
+//@   ensures  one_voter_delta_nonvoter [when change.command == AddNonvoter]: result1 == nil ==> forall id ServerID :: id != change.serverID ==> isVoter(result0, id) == isVoter(current, id)
+//@   ensures  one_voter_delta_demote [when change.command == DemoteVoter]: result1 == nil ==> forall id ServerID :: id != change.serverID ==> isVoter(result0, id) == isVoter(current, id)
+//@   ensures  remove_no_new_voter [when change.command == RemoveServer]: result1 == nil ==> forall id ServerID :: id != change.serverID && isVoter(result0, id) ==> isVoter(current, id)
+//@   ensures  remove_pointwise [when change.command == RemoveServer]: result1 == nil ==>
+//@              forall k int :: 0 <= k && k < len(current.Servers) && current.Servers[k].ID != change.serverID ==>
+//@                (k < len(result0.Servers) && result0.Servers[k] == current.Servers[k]) ||
+//@                (k >= 1 && k-1 < len(result0.Servers) && result0.Servers[k-1] == current.Servers[k])
+//@   ensures  remove_keeps_others [from remove_pointwise]: change.command == RemoveServer && result1 == nil ==>
+//@              forall id ServerID :: id != change.serverID && isVoter(current, id) ==> isVoter(result0, id)
+//@   ensures  one_voter_delta_promote [when change.command == Promote]: result1 == nil ==> forall id ServerID :: id != change.serverID ==> isVoter(result0, id) == isVoter(current, id)
+//@   ensures  one_voter_delta_other: result1 == nil && change.command != AddVoter && change.command != AddNonvoter && change.command != DemoteVoter && change.command != RemoveServer && change.command != Promote ==>
+//@              forall id ServerID :: isVoter(result0, id) == isVoter(current, id)
+//@   ensures  no_alias: result1 == nil ==> isfresh(result0.Servers)
